@@ -9,6 +9,7 @@ import Driver.PendD
 import Driver.ChanD
 import Driver.SessD
 import Driver.SrvLifeD
+import Driver.TimedD
 /-!
 # `limedriver` — line protocol in front of the executable model
 
@@ -33,6 +34,7 @@ def dispatch (j : Json) : R Json := do
   | "cliwants" => CliD.handleWants j
   | "clijudge" => CliD.handleJudge j
   | "build" => CodecD.handleBuild j
+  | "timed" => TimedD.handle j
   | "srvlife" => SrvLifeD.handle j
   | "sessions" => SessD.handle j
   | "chanjudge" => ChanD.handle j
